@@ -1009,6 +1009,19 @@ def r6_defines_cover_operands(a, tier):
             rep.add({'class': short, 'keys': prop, 'operands': sorted(attrs), 'declared': sorted(got), 'missing': missing,
                      'derived_operands_not_required': sorted(derived)})
             impl = a.ct.lookup(c, prop)
+            if kind == 'single':
+                # ... and a name that is only ever bound with `=` is not declared as a list (it would start as [] and collect its value)
+                try:
+                    as_list = set(ModelInterp(a).get_attr(node, 'defines_list'))
+                except Unsupported as e:
+                    raise AnalysisError(f'C01.R6: cannot interpret {short}.defines_list: {e}') from e
+                wrong = sorted(want & as_list)
+                rep.add({'class': short, 'single_names_declared_as_lists': wrong})
+                for n in wrong:
+                    il = a.ct.lookup(c, 'defines_list')
+                    rep.fail(c, f'defines:single-as-list:{n[:-5]}', f'{short}.defines_list (implemented by {il.qualname if il else "?"}) contains the name bound with `=` in the '
+                             f'operand `{n[:-5]}`: the enclosing sequence declares it as a list, so the AST holds [] instead of None when it did not match and '
+                             f'[value] instead of value when it matched once', a.p.classes[c].loc)
             for n in missing:
                 rep.fail(c, f'defines:{kind}:{n[:-5]}', f'{short}.{prop} (implemented by {impl.qualname if impl else "?"}) does not contain the '
                          f'names bound in the operand `{n[:-5]}`: such a name is missing from the AST, instead of being '
